@@ -18,7 +18,7 @@
 (* MODE = "sig" : the decision table (10 type classes per position)        *)
 (* MODE = "val" : value domains                                            *)
 (***************************************************************************)
-EXTENDS Eval, TLC
+EXTENDS FunctionsL1, TLC
 CONSTANTS MODE, MAXAR, LEN, DEVS
 VARIABLES f, args, res, stage
 
@@ -109,6 +109,16 @@ Inv_OkTyped == (stage = 1 /\ Validate(f, args) = "ok") =>
                  \/ (IsVOk(res) /\ TypeName(res.ok) \in ResultTypes(f))
                  \/ (f \in {"sort_by", "max_by", "min_by", "map"} /\ IsVErr(res))     \* the expression reference's own failures
 Inv_L1Sig == OnlyExprefToAny(f, args) \/ L1Validate(f, args) = Validate(f, args)
+
+(* Level 1 (the algorithms as coded, FunctionsL1) = Level 0 (Apply) on every valid value cell *)
+KeysFor == IF f \in {"sort_by", "max_by", "min_by"} /\ Validate(f, args) = "ok"
+           THEN LET ks == KeysOf(args[2].ast, args[1].a, 1, Builtins, [vals |-> <<>>, amb |-> FALSE]) IN IF IsVOk(ks) THEN ks.ok ELSE <<>>
+           ELSE <<>>
+Inv_L1Functions ==
+  (stage = 1 /\ IsVOk(res) /\ Validate(f, args) = "ok") =>
+     LET l1 == ApplyL1(f, args, KeysFor, DEVS) IN
+     "na" \in DOMAIN l1 \/ l1.v = res.ok
+        \/ (res.amb /\ f \in {"max_by", "min_by"} /\ \E i \in DOMAIN args[1].a : args[1].a[i] = l1.v)
 
 (* vacuity guard: this "invariant" MUST be violated -- it claims that no sort_by / max_by input has tied keys *)
 Inv_NoTiesExercised == ~(f \in {"sort_by", "max_by", "min_by"} /\ args[1].t = "arr"
